@@ -66,6 +66,14 @@ func run(c *h.Ctx, cs Case) {
 		c.Fail(fmt.Sprintf("C01/hook/allowed-without-R%d", k),
 			"ExecutionAllowedWithArgsHook returned nil although rule R%d is violated (broken %v)", k, r.Broken())
 	}
+	if !principalOK {
+		for _, hk := range chain.OddHooks {
+			if do := chain.DecideOddHook(b, hk); do.Allowed {
+				k := firstBroken(r, 1, 6)
+				c.Fail(fmt.Sprintf("C01/hook-%s/allowed-without-R%d", hk, k), "ExecutionAllowedWithArgsHook (hook: %s) returned nil although rule R%d is violated (broken %v)\ncase: %+v", hk, k, r.Broken(), cs)
+			}
+		}
+	}
 	// history clause: the decision is about the loader handed to THIS call. After an allowed
 	// check, the same token object checked against a loader that has lost one delegation
 	// (or fails on it) must be denied.
